@@ -296,6 +296,10 @@ func c16Pairs(c *Ctx, pr *PropertyRun, prop string, keep func(what string) bool)
 		}
 		r.Role("codec-pair")
 		eu := hasUse(calleeUses(c, enc, 2), pa.encCall)
+		if eu == nil && pa.encCall == "(time.Time).Format" {
+			// AppendFormat(b, layout) is Format(layout) written into a buffer
+			eu = hasUse(calleeUses(c, enc, 2), "(time.Time).AppendFormat")
+		}
 		du := hasUse(calleeUses(c, dec, 2), pa.decCall)
 		detail := ""
 		if pa.encCall == "fmt.Sprintf" && pa.decCall == "strconv.Unquote" {
@@ -623,10 +627,18 @@ func utcRule(c *Ctx, pr *PropertyRun, prop string) {
 		}
 		eachCall(fn, func(site ssa.CallInstruction) {
 			cc := site.Common()
-			if calleeName(cc) != "(time.Time).Format" || len(cc.Args) != 2 {
+			li := 1
+			switch calleeName(cc) {
+			case "(time.Time).Format":
+			case "(time.Time).AppendFormat":
+				li = 2
+			default:
 				return
 			}
-			layout, ok := constString(cc.Args[1])
+			if len(cc.Args) != li+1 {
+				return
+			}
+			layout, ok := constString(cc.Args[li])
 			if !ok {
 				r.Role("format-site-dynamic-layout")
 				return
